@@ -14,6 +14,7 @@ obligation; the check then relies on the hand model + correspondence + failing-i
   `torch.ceil(torch.tensor(a / b)).item()`  -> ceilDiv a b,
   `np.log2(a).astype(int)`, `np.log2(a / b).astype(int)`, `int(math.log2(a))`, `int(np.log2(a))`
                                             -> log2Trunc a b     (truncated log2 of a rational),
+  filter counts `int(filters * (filters_rate ** e))` (FILTER_TARGETS; `self.` prefixes allowed) -> scale filters r e,
   statements: docstring, `x = e`, `if c: x = e` (assign-only bodies, optional else), `return e`,
   `return cls(name=e, ...)` (the listed keyword values are returned as a tuple).
 """
@@ -29,6 +30,17 @@ TARGETS = [
     dict(file="sleap_nn/architectures/unet.py", cls="UNet", func="from_config",
          lean="unet_from_config_blocks", params=["stem_stride", "max_stride", "output_stride"],
          optional=["stem_stride"], outputs=["down_blocks", "up_blocks", "stem_blocks"]),
+]
+
+# filter-count expressions `block_filters… = int(filters * (filters_rate ** <int expr>))` inside the block loops
+# of Encoder.__init__ / Decoder.__init__  ->  `scale filters r <int expr>` (exact rational power, truncated)
+FILTER_TARGETS = [
+    dict(file="sleap_nn/architectures/encoder_decoder.py", cls="Encoder", loop_over="stem_blocks",
+         var="block_filters", lean="enc_stem_block_filters", params=["block", "stem_blocks"]),
+    dict(file="sleap_nn/architectures/encoder_decoder.py", cls="Encoder", loop_over="down_blocks",
+         var="block_filters", lean="enc_down_block_filters", params=["block", "stem_blocks"]),
+    dict(file="sleap_nn/architectures/encoder_decoder.py", cls="Decoder", loop_over="up_blocks",
+         var="block_filters_in", lean="dec_block_filters_in", params=["block", "stem_blocks", "down_blocks"]),
 ]
 
 GEN_REL = "SleapVerif/Gen/TranslatedArch.lean"
@@ -55,7 +67,7 @@ class Tr:
     def name(self, node) -> str:
         if isinstance(node, ast.Name):
             n = node.id
-        elif isinstance(node, ast.Attribute) and isinstance(node.value, ast.Name) and node.value.id == "config":
+        elif isinstance(node, ast.Attribute) and isinstance(node.value, ast.Name) and node.value.id in ("config", "self"):
             n = node.attr
         else:
             raise Unsupported(f"not a name: {_src(node)}")
@@ -219,6 +231,39 @@ def translate_one(repo: Path, t: dict) -> str:
             f"def {t['lean']}{binders} : {ret} :=\n{body}\n")
 
 
+def _plain(node):
+    if isinstance(node, ast.Name):
+        return node.id
+    if isinstance(node, ast.Attribute) and isinstance(node.value, ast.Name) and node.value.id == "self":
+        return node.attr
+    return None
+
+
+def translate_filters(repo: Path, t: dict) -> str:
+    """`<var> = int(filters * (filters_rate ** E))` in the `for block in range(<loop_over>)` loop of
+    `<cls>.__init__`  ->  `def <lean> (filters : Nat) (r : Rate) (<params> : Int) : Nat := scale filters r E`"""
+    init = find_func(ast.parse((repo / t["file"]).read_text()), t["cls"], "__init__")
+    loops = [n for n in ast.walk(init) if isinstance(n, ast.For) and isinstance(n.iter, ast.Call)
+             and _plain(n.iter.func) == "range" and len(n.iter.args) == 1 and _plain(n.iter.args[0]) == t["loop_over"]]
+    if len(loops) != 1:
+        raise Unsupported(f"expected one `for block in range({t['loop_over']})` loop, found {len(loops)}")
+    assigns = [st for st in loops[0].body if isinstance(st, ast.Assign) and len(st.targets) == 1
+               and _plain(st.targets[0]) == t["var"]]
+    if len(assigns) != 1:
+        raise Unsupported(f"expected one assignment to {t['var']} in the loop, found {len(assigns)}")
+    v = assigns[0].value
+    ok = (isinstance(v, ast.Call) and _plain(v.func) == "int" and len(v.args) == 1 and isinstance(v.args[0], ast.BinOp)
+          and isinstance(v.args[0].op, ast.Mult) and _plain(v.args[0].left) == "filters"
+          and isinstance(v.args[0].right, ast.BinOp) and isinstance(v.args[0].right.op, ast.Pow)
+          and _plain(v.args[0].right.left) == "filters_rate")
+    if not ok:
+        raise Unsupported(f"filter count is not int(filters * (filters_rate ** e)): {_src(v)}")
+    e = Tr(t["params"], []).expr(v.args[0].right.right)
+    return (f"/-- generated from `{t['file']}` `{t['cls']}.__init__`, loop over `{t['loop_over']}`: `{t['var']}` -/\n"
+            f"def {t['lean']} (filters : Nat) (r : Rate) ({' '.join(t['params'])} : Int) : Nat :=\n"
+            f"  scale filters r {e}\n")
+
+
 def generate(repo: Path):
     """-> (lean text | None, problems)"""
     parts, problems = [], []
@@ -227,6 +272,11 @@ def generate(repo: Path):
             parts.append(translate_one(repo, t))
         except (Unsupported, SyntaxError, OSError) as e:
             problems.append(f"{t['file']}:{t['cls']}.{t['func']}: {e}")
+    for t in FILTER_TARGETS:
+        try:
+            parts.append(translate_filters(repo, t))
+        except (Unsupported, SyntaxError, OSError) as e:
+            problems.append(f"{t['file']}:{t['cls']}.__init__[{t['var']} / {t['loop_over']}]: {e}")
     if problems:
         return None, problems
     text = ("import SleapVerif.Model.Arch\n"
